@@ -406,6 +406,136 @@ def judgeSv (o : Sv) (obs : String) : String :=
       else "ok"
   | _ => "fail shape"
 
+/-! query members of the histogram class (mk) and key construction with casts (kc) -/
+
+structure Mk where
+  c : Ch
+  nc : Nat
+  sel : List Nat
+  bw : Int
+  n : Nat
+  probes : List Key
+  pixA : List (List Int)
+  pixB : List (List Int)
+
+def chunks (n : Nat) : Nat → List Int → List Key
+  | 0, _ => []
+  | f + 1, l => if l.length < n || n == 0 then [] else l.take n :: chunks n f (l.drop n)
+
+def parseMk (line : String) : Option Mk :=
+  match splitOn' "|" (words line) with
+  | ["mk", vt, sel, bw, w, h] :: probes :: planesW =>
+    match vtInfo vt, ints [bw, w, h], ints probes, planesW.mapM ints with
+    | some (c, nc), some [bw, w, h], some probes, some planes =>
+      if planes.length ≠ 2 * nc ∨ bw < 1 then none else
+      let n := (w * h).toNat
+      let sel := selOf sel
+      let dims := if sel.isEmpty then nc else sel.length
+      some { c := c, nc := nc, sel := sel, bw := bw, n := n, probes := chunks dims probes.length probes,
+             pixA := pixelsOf n (planes.take nc), pixB := pixelsOf n (planes.drop nc) }
+    | _, _, _, _ => none
+  | _ => none
+
+def mkArgs (o : Mk) : FillArgs := { c := o.c, bw := o.bw, sel := o.sel, applymask := false, setlimits := false, lower := [], upper := [] }
+def mkDims (o : Mk) : Nat := if o.sel.isEmpty then o.nc else o.sel.length
+def joinKeys (ks : List Key) : String := if ks.isEmpty then "-" else ";".intercalate (ks.map showKey)
+def bit (b : Bool) : String := if b then "1" else "0"
+
+def modelMk (o : Mk) : String :=
+  let a := mkArgs o
+  let hA := fill a [] (o.pixA.map fun p => (p, true))
+  let hB := fill a [] (o.pixB.map fun p => (p, true))
+  let hAB := fill a hA (o.pixB.map fun p => (p, true))
+  "min=" ++ (if hA.isEmpty then "-" else showKey (minKey hA)) ++ " max=" ++ (if hA.isEmpty then "-" else showKey (maxKey hA))
+  ++ " sorted=" ++ joinKeys (sortedKeys hA) ++ " near=" ++ joinKeys (o.probes.map fun p => nearestKey hA p)
+  ++ " eq=" ++ bit (equalsH true hA hA) ++ bit (equalsH true hA hB) ++ bit (equalsH true hB hA) ++ bit (equalsH true hA hAB) ++ bit (equalsH true hAB hA)
+  ++ " kp=" ++ (match o.pixA.head? with
+      | none => "-"
+      | some px => showKey (keyFromPixel (List.replicate (mkDims o) .i32) o.sel px))
+
+def field (obs name : String) : Option String :=
+  (words obs).findSome? fun w => if w.startsWith (name ++ "=") then some (w.drop (name.length + 1)).toString else none
+
+def parseKeys (s : String) : Option (List Key) := if s == "-" then some [] else (s.splitOn ";").mapM parseKey
+
+def ascending : List Key → Bool
+  | a :: b :: rest => keyLt a b && ascending (b :: rest)
+  | _ => true
+
+/-- Spec of the queries, evaluated on the Spec histogram (truncating quotient keys): min_key / max_key are keys with no key below /
+    above (tuple order); sorted_keys is the ascending arrangement of the key set; nearest_key(k) is k when present, else the greatest
+    key not above k (k when none); equals answers 1 on equal histograms and 0 when some bin of the argument is missing or different
+    (nothing is demanded when the argument is a proper sub-histogram: the header's test is one-sided, see notes); key_from_pixel is
+    the tuple of the selected channels -/
+def judgeMk (o : Mk) (obs : String) : String :=
+  let a := mkArgs o
+  let sA := specFill false a [] (o.pixA.map fun p => (p, true))
+  let sB := specFill false a [] (o.pixB.map fun p => (p, true))
+  let sAB := specFill false a sA (o.pixB.map fun p => (p, true))
+  let keys := sA.keys
+  match field obs "min", field obs "max", field obs "sorted", field obs "near", field obs "eq", field obs "kp" with
+  | some mn, some mx, some so, some ne, some eq, some kp =>
+    match parseKeys mn, parseKeys mx, parseKeys so, parseKeys ne, parseKeys kp with
+    | some mn, some mx, some so, some ne, some kp =>
+      let least := fun (m : Key) => keys.contains m && keys.all fun k => !keyLt k m
+      let greatest := fun (m : Key) => keys.contains m && keys.all fun k => !keyLt m k
+      if keys.isEmpty && !(mn.isEmpty && mx.isEmpty && so.isEmpty) then "fail queries-of-an-empty-histogram" else
+      if !keys.isEmpty && !(match mn with | [m] => least m | _ => false) then "fail min_key-is-the-least-key" else
+      if !keys.isEmpty && !(match mx with | [m] => greatest m | _ => false) then "fail max_key-is-the-greatest-key" else
+      if !(so.length == keys.length && keys.all (fun k => so.contains k) && ascending so) then "fail sorted_keys-is-the-ascending-key-set" else
+      if ne.length ≠ o.probes.length then "fail nearest_key(shape)" else
+      if (o.probes.zip ne).any (fun pr =>
+          let p := pr.1; let r := pr.2
+          if keys.contains p then r != p else
+          let cands := keys.filter fun u => !keyLt p u
+          if cands.isEmpty then r != p else !(cands.contains r && cands.all fun u => !keyLt r u)) then "fail nearest_key-is-the-greatest-key-not-above" else
+      let sub := fun (h other : Hist) => other.all fun kv => h.findKey? kv.1 == some kv.2
+      let okEq := fun (b : Char) (h other : Hist) =>
+        if sameHist h other then b == '1' else if !(sub h other) then b == '0' else true
+      (match eq.toList with
+       | [e1, e2, e3, e4, e5] =>
+         if !(okEq e1 sA sA && okEq e2 sA sB && okEq e3 sB sA && okEq e4 sA sAB && okEq e5 sAB sA) then "fail equals-is-reflexive-and-sound" else
+         let want : List Key := match o.pixA.head? with
+           | none => []
+           | some px => [if o.sel.isEmpty then px else o.sel.map fun i => px.getD i 0]
+         if kp != want then "fail key_from_pixel-selects-the-channels" else "ok"
+       | _ => "fail shape")
+    | _, _, _, _, _ => "fail not-a-key"
+  | _, _, _, _, _, _ => "fail shape"
+
+def kcTys : List KTy := [.u8, .i16, .i32]
+
+def parseKc (line : String) : Option (List Int × List Int) :=
+  match splitOn' "|" (words line) with
+  | ["kc", c0, c1, c2] :: [t] =>
+    match ints [c0, c1, c2], ints t with
+    | some c, some t => if t.length = 3 then some (c, t) else none
+    | _, _ => none
+  | _ => none
+
+def modelKc (c t : List Int) : String :=
+  " | ".intercalate [showKey (keyFromPixel kcTys [] c), showKey (keyFromPixel kcTys [2, 0, 1] c), showKey (keyFromPixel kcTys [] t),
+    showKey (keyFromPixel kcTys [1, 2, 0] t),
+    bit (isTupleCompatible 3 [true, true, true]) ++ bit (isTupleCompatible 3 [true, true]) ++ bit (isTupleCompatible 3 [true, true, true])
+      ++ bit (isTupleCompatible 3 [false, true, true]) ++ bit (isTupleCompatible 3 [true, true, true, true])]
+
+/-- Spec: component j of the key lies in the range of the j-th key type and is congruent to the selected source component modulo
+    2^bits (equal to it when it fits); is_tuple_compatible = same size and all components convertible -/
+def judgeKc (c t : List Int) (obs : String) : String :=
+  match (obs.splitOn "|").map (fun s => s.trimAscii.toString) with
+  | [k1, k2, k3, k4, bits] =>
+    let okKey := fun (ks : String) (src : List Int) =>
+      match parseKey ks with
+      | some k => k.length == 3 && ((kcTys.zip (k.zip src)).all fun x =>
+          decide (x.1.lo ≤ x.2.1) && decide (x.2.1 ≤ x.1.hi) && (x.2.1 - x.2.2) % (2 ^ x.1.bits : Int) == 0)
+      | none => false
+    let pick := fun (l : List Int) (sel : List Nat) => sel.map fun i => l.getD i 0
+    if !(okKey k1 c && okKey k2 (pick c [2, 0, 1])) then "fail key_from_pixel-casts-to-the-key-types"
+    else if !(okKey k3 t && okKey k4 (pick t [1, 2, 0])) then "fail key_from_tuple-casts-to-the-key-types"
+    else if bits != "10100" then "fail is_tuple_compatible"
+    else "ok"
+  | _ => "fail shape"
+
 def model (line : String) : String :=
   match (words line).head? with
   | some "fh" | some "hk" => match parseFh line with | some o => modelFh o | none => "bad-op"
@@ -413,6 +543,8 @@ def model (line : String) : String :=
   | some "cn" => match parseCn line with | some c => modelCn c | none => "bad-op"
   | some "ns" => match parseNs line with | some o => modelNs o | none => "bad-op"
   | some "sv" => match parseSv line with | some o => modelSv o | none => "bad-op"
+  | some "mk" => match parseMk line with | some o => modelMk o | none => "bad-op"
+  | some "kc" => match parseKc line with | some (c, t) => modelKc c t | none => "bad-op"
   | some _ => match parseSimple line with | some o => modelSimple o | none => "bad-op"
   | none => "bad-op"
 
@@ -424,6 +556,8 @@ def judge (op obs : String) : String :=
   | some "cn" => match parseCn op with | some c => judgeCn c obs | none => "fail bad-op"
   | some "ns" => match parseNs op with | some o => judgeNs o obs | none => "fail bad-op"
   | some "sv" => match parseSv op with | some o => judgeSv o obs | none => "fail bad-op"
+  | some "mk" => match parseMk op with | some o => judgeMk o obs | none => "fail bad-op"
+  | some "kc" => match parseKc op with | some (c, t) => judgeKc c t obs | none => "fail bad-op"
   | some _ => match parseSimple op with | some o => judgeSimple o obs | none => "fail bad-op"
   | none => "fail bad-op"
 
